@@ -13,7 +13,7 @@ Cfgs == { <<DummyKey, "none">>, <<OctKey(32, "a", NONE, NONE), "HS256">>, <<Asym
 Shapes == {"3seg", "null", "empty", "0dot", "1dot", "2seg", "lead", "4seg", "4segempty"}
 HClasses == {"obj", "objws", "notjson", "arr", "scalar", "strjson", "nulljson", "notb64", "len1mod4", "empty", "emptyobj", "dupkeys"}
 PClasses == {"obj", "objws", "notjson", "arr", "scalar", "strjson", "nulljson", "notb64", "len1mod4", "empty", "emptyobj"}
-Spellings(a) == {a, "none", "None", "hs256", "HS256 ", "bogus", "", NONE, "#int", "#null", "#bool", "#arr", "#obj", "#real"}
+Spellings(a) == {a, "none", "None", "hs256", "HS256 ", "bogus", "", NONE, "#int", "#null", "#bool", "#arr", "#obj", "#real", "%s%s%s%s%s%s%n"} \cup NearMiss(a)
 SigsFor(k, a) == { EmptySig, Sig("valid", a, k), [Sig("garbage", "HS256", DummyKey) EXCEPT !.cls = "garbage"], Sig("notb64", a, k) }
 
 Base(k, a) == Tok(a, <<>>, <<StrM("sub", "x")>>, IF a = "none" THEN EmptySig ELSE Sig("valid", a, k))
